@@ -121,6 +121,12 @@ type world struct {
 }
 
 func (w *world) viol(key, what string) {
+	// a legitimate call that failed only because one of the handler's own 3 s
+	// contexts ran out (machine stalled) decides nothing
+	if strings.HasSuffix(key, "-refused") && (strings.Contains(what, "context deadline exceeded") || strings.Contains(what, "context canceled")) {
+		w.r.Inconclusive(w.name + ": " + what)
+		return
+	}
 	w.r.Violation(key, w.name, fmt.Sprintf("step %d: %s", w.step, what), w.hist)
 }
 
